@@ -364,7 +364,7 @@ func c09Gen(r *rand.Rand, n int, tier string) []string {
 			case 3: // scheme, separator(s), token, maybe trailing words
 				segs = []string{"L" + hxs(pick(r, lits)), "L" + hxs(pick(r, seps)), "T" + pick(r, kinds)}
 				if r.Intn(3) == 0 {
-					segs = append(segs, "L"+hxs(pick(r, []string{" extra", " ", "x", " "+c09Token})))
+					segs = append(segs, "L"+hxs(pick(r, []string{" extra", " ", "x", " " + c09Token})))
 				}
 			case 4: // leading white space, several fields
 				segs = []string{"L" + hxs(pick(r, seps)), "L" + hxs(pick(r, lits)), "L" + hxs(pick(r, seps)), "T" + pick(r, kinds)}
@@ -457,7 +457,7 @@ func c09Gen(r *rand.Rand, n int, tier string) []string {
 			}
 			out = append(out, "login/"+strings.Join(ops, ";")+"|"+hxs(tryEmail)+":"+hxs(tryPass))
 		default:
-			out = append(out, "bus/"+pick(r, []string{"right", "none", hxs("wrong"), hxs(c09Token[:9]), hxs(c09Token+" "), hxs(strings.ToUpper(c09Token))}))
+			out = append(out, "bus/"+pick(r, []string{"right", "none", hxs("wrong"), hxs(c09Token[:9]), hxs(c09Token + " "), hxs(strings.ToUpper(c09Token))}))
 		}
 	}
 	return out
